@@ -686,7 +686,7 @@ class PyvalColorizer:
             # In Python < 3.9, non-slices are always wrapped in an Index node.
             sub = sub.value
         self._output('[', self.GROUP_TAG, state)
-        if isinstance(sub, ast.Tuple):
+        if isinstance(sub, ast.Tuple) and sub.elts:
             # a one-element tuple index needs its ending comma, i.e. 'x[1,]'.
             self._multiline(self._colorize_iter, sub.elts, state, 
                             suffix=',' if len(sub.elts) == 1 else None)
